@@ -1,0 +1,21 @@
+//go:build verif
+
+package value
+
+// VerifHook receives verification trace events when the `verif` build tag is set.
+// A hook may block: it is then a scheduler gate for the calling goroutine.
+var VerifHook func(ev string, args ...any)
+
+func vhook(ev string, args ...any) {
+	if h := VerifHook; h != nil {
+		h(ev, args...)
+	}
+}
+
+// Symbol interning is a hot path: the arguments are typed so that nothing is boxed
+// unless a hook is installed. The hook receives (table, name, symbol, ok).
+func vhookSym(ev string, s *SymbolTableStruct, name string, sym Symbol, ok bool) {
+	if h := VerifHook; h != nil {
+		h(ev, s, name, sym, ok)
+	}
+}
